@@ -1,4 +1,5 @@
 """C02 — executing any program against any context returns a value or an error."""
+import os
 from celmodel.values import to_json, top_outcome, outcome, is_crash, canon
 from celmodel.expr import render_min, render_full, count_ops, render_literal
 from celmodel.gen import UntypedGen, hostile_pool, rnd_value, FUNCS, HOST_FUNCS, IDENTS
@@ -168,3 +169,23 @@ def recheck(cases, out, res):
                     res.violation('panic', 'replay', crash_sig(outcome(x)), c)
         else:
             check_total(res, c, r, 'replay')
+
+
+def extra_stages(tier, seed, scratch, total, notes):
+    """Thorough tier: replay part of the corpus through an AddressSanitizer build of the driver. A report
+    aborts the driver; the in-flight case is then recorded as an abort whose stderr names the sanitizer."""
+    if tier != 'thorough':
+        return
+    import runner
+    try:
+        binary, env, note = runner.build_variant('asan')
+    except runner.Inconclusive as e:
+        notes.append({"stage": "asan", "result": "inconclusive (toolchain): " + str(e)[:300]})
+        return
+    sub = [u for u in units('quick', seed) if u[0] in ('valueop', 'builtins', 'indexing')][::2] + [('programs', i) for i in range(12)]
+    t = runner.run_units_with(__name__, sub, binary, os.path.join(scratch, "asan"), seed + 1000, 'quick', env=env)
+    notes.append({"stage": "asan", "build": note, "units": len(sub), "executions": t.evaluations,
+                  "sanitizer_reports": sum(1 for v in t.violations if 'Sanitizer' in v["sig"][2]),
+                  "statement": "no AddressSanitizer report on these executions (not a proof of memory safety)"})
+    t.observed = {"asan:" + k: v for k, v in t.observed.items() if not isinstance(v, set)}
+    total.merge(t)
